@@ -15,6 +15,11 @@ CHECKS = {
     text='TLC explores all set_value/evaluate histories (unbounded length, finite state) of the implementation-shaped engine model for several workbooks (chains, ranges, nested ranges, unbounded ranges, CSE arrays) x sources (no data, xlsx with stored results, from_file of yml/json/pkl) and checks Coherent/RetOK/Closure/EdgesComplete; an edge-covering tour then executes every model transition on the real object, comparing each evaluate result with a from-scratch compile and the full abstract state with the model.',
     note='assumes the projection (cell_map, values, dep_graph edges, _values_changed) captures the state behaviour depends on; workbooks are the listed 6-8 node shapes, values from an 5-8 value pool',
     ref='§3 C01'),
+ 'C03': dict(
+    technique='Persist.tla (text file, pickle file, pickle-reuse rule with named deviation DEV_StalePickle, extension search order) checked by TLC; every history of the code-rule model executed on real files; attribution of known findings by the deviation model; lock-step original/loaded histories in same process, fresh thread and fresh process',
+    text='TLC checks LoadedEquiv and SaveIdempotent for the repaired protocol and exports all histories (depth <= 5) of to_file/from_file/set_value/extra_data edits for both rules; each is executed on real yml/json/pkl files: a model loaded from a current file must equal the live model (values of all saved cells, extra_data), an unchanged re-save must be byte-identical; a discrepancy is D9 only if the deviation model predicts exactly the observed content.  Content fidelity over a 55-value adversarial pool x 3 formats (D10 by predictor), random post-load histories in lock-step on random workbooks (cycles on/off; same process, new thread, new process), save(load(f)) content and metadata survival.',
+    note='content abstracted to input constants + metadata in the model; yaml/json byte encoding exercised by the pool, not modelled; quick tier samples 1500 protocol histories per text format',
+    ref='§3 C03'),
  'C04': dict(
     technique='TLA+ enumeration of written reference forms (RefForms.tla, TLC checks the declaration rule covers every influencing cell); read/build traces recorded from the real code through the PYCEL_VERIF hooks are validated by TLC against ReadTrace.tla',
     text='TLC enumerates 3.8k formula descriptors (plain, sheet-qualified, quoted, $-absolute, range, intersection, union, multi-colon, defined names single/multi-area, ROW/COLUMN/INDEX forms, IF branches, unbounded rows/columns, CSE members); each is compiled and evaluated in two value environments with hooks on; a read is accepted by the trace specification only if it is covered by a declared precedent of the reading node and by one of its dependency-graph predecessors, and the final event only if every influencing rectangle is a graph ancestor.',
